@@ -499,6 +499,17 @@ make_function_remap(const InterrogateType &itype,
     new FunctionRemap(itype, ifunc, cppfunc, num_default_parameters, this);
   if (remap->_is_valid) {
     if (separate_overloading()) {
+      // A variant that leaves out defaulted parameters may coincide with
+      // another overload ("int f(int, int = 0); int f(int);").  A call of
+      // that form is ambiguous in C++; we keep the variant we saw first.
+      WrappersByHash::const_iterator hi =
+        _wrappers_by_hash.find(InterrogateBuilder::hash_string(remap->_function_signature, 5));
+      if (hi != _wrappers_by_hash.end() && (*hi).second != nullptr &&
+          (*hi).second->_function_signature == remap->_function_signature) {
+        delete remap;
+        return nullptr;
+      }
+
       hash_function_signature(remap);
       remap->_unique_name =
         get_unique_prefix() + _def->library_hash_name + remap->_hash;
